@@ -157,6 +157,24 @@ func init() {
 		}
 		c.Fact("typedtool.applySchema_order", so)
 
+		// which integers applySchema's decode keeps exact (`TypedTool.i64Dec`: int64, else uint64, else
+		// float64 — [-2^63, 2^64)): the flags UnmarshalExactInts hands to the segmentio parser
+		var flags []string
+		if ue := c.Func("internal/json", "", "UnmarshalExactInts"); ue != nil {
+			ast.Inspect(ue.Body, func(n ast.Node) bool {
+				if call, ok := n.(*ast.CallExpr); ok && c.Src(call.Fun) == "json.Parse" && len(call.Args) == 3 {
+					for _, f := range strings.Split(c.Src(call.Args[2]), "|") {
+						flags = append(flags, strings.TrimSpace(f))
+					}
+				}
+				return true
+			})
+		} else {
+			c.Errf("typedtool: internal/json UnmarshalExactInts not found")
+		}
+		sort.Strings(flags)
+		c.Fact("typedtool.exact_ints_decode_flags", flags)
+
 		// the coercion rule for a null output
 		coerce := ""
 		ast.Inspect(as.Body, func(n ast.Node) bool {
